@@ -18,6 +18,7 @@
 #include <unistd.h>
 #include "solver.hpp"
 #include "mesh_reader.hpp"
+#include "simulation_initializer.hpp"
 #include "epithelial_cell.hpp"
 #include "ecm_cell.hpp"
 #include "lumen_cell.hpp"
@@ -229,22 +230,30 @@ std::string run_scenario(const std::map<std::string, std::string>& kv){
     const double sx = hi[0] - lo[0], sy = hi[1] - lo[1], sz = hi[2] - lo[2];
 
     g_attempts.clear(); g_keep.clear(); g_obj.clear(); g_solver = nullptr;
-    std::vector<cell_ptr> cells;
-    for(unsigned i = 0; i < n; i++){
-        const short kind = kinds[i % kinds.size()]; const unsigned nft = nfts[i % nfts.size()];
-        const unsigned ix = i % nx, iy = (i / nx) % nx, iz = i / (nx * nx);
-        mesh m = translated(base, ix * (sx + gap), iy * (sy + gap), iz * (sz + gap));
-        cell_ptr c = make_cell(kind, m, i, make_type(kind, nft));
-        c->initialize_cell_properties();
-        cells.push_back(c);
-    }
+    std::vector<cell_type_param_ptr> types;
+    for(unsigned i = 0; i < n; i++) types.push_back(make_type(kinds[i % kinds.size()], nfts[i % nfts.size()]));
 
     global_simulation_parameters sim;
-    sim.input_mesh_path_ = "";
+    sim.input_mesh_path_ = std::string(PROJECT_SOURCE_DIR) + "/data/input_meshes/cube.vtk";
     sim.output_folder_path_ = "/tmp/c08_out_" + std::to_string((long)getpid());
     sim.damping_coefficient_ = 2.0e-09; sim.simulation_duration_ = 1.0; sim.sampling_period_ = sp; sim.time_step_ = 1.0e-07;
     sim.min_edge_len_ = lmin; sim.contact_cutoff_adhesion_ = cutoff; sim.contact_cutoff_repulsion_ = cutoff;
     sim.enable_edge_swap_operation_ = false; sim.perform_initial_triangulation_ = false;
+
+    // admissibility of the cell types is decided by the REAL start-up code (simulation_initializer::run),
+    // exactly as main.cpp and the tests go through it; a rejected parameter set is not a scenario
+    try{ simulation_initializer gate(sim, types, false); }
+    catch(const intialization_exception& e){ std::string st = std::string("rejected ") + e.what(); for(auto& ch : st) if(ch == '\n') ch = ' '; return st; }
+
+    std::vector<cell_ptr> cells;
+    for(unsigned i = 0; i < n; i++){
+        const short kind = kinds[i % kinds.size()];
+        const unsigned ix = i % nx, iy = (i / nx) % nx, iz = i / (nx * nx);
+        mesh m = translated(base, ix * (sx + gap), iy * (sy + gap), iz * (sz + gap));
+        cell_ptr c = make_cell(kind, m, i, types[i]);
+        c->initialize_cell_properties();
+        cells.push_back(c);
+    }
 
     {
         // the solver is deliberately never destroyed: ~solver deletes its writers/contact model through base
